@@ -450,6 +450,115 @@ theorem container_wf_matmul (a b c' : Cont R) (w w' : World R) (ha : a.WF) (hb :
             exact matmulCore_wf _ a b _ _ _ (l0.1, l0.2) (l1.1, r1.2) rfl rfl
               (Nat.mul_pos hp.1 hq.2) w c' w' h
 
+/-- … and `reset` and the assigning forms keep containers well formed … -/
+theorem container_wf_assign (w : World R) :
+    (∀ c : Cont R, c.WF → (c.reset w).1.WF)
+      ∧ (∀ (op : UOp R) (c : Cont R), c.WF → (c.unaryAssign op.fns.1 op.fns.2 w).1.WF)
+      ∧ (∀ (op : BOp R) (a b c' : Cont R) w', a.WF → b.WF →
+          (a.binaryLeftAssign b op.fns.1 op.fns.2.1 op.fns.2.2 w = .ok (c', w')
+            ∨ a.binaryRightAssign b op.fns.1 op.fns.2.1 op.fns.2.2 w = .ok (c', w')) → c'.WF) := by
+  refine ⟨?_, ?_, ?_⟩
+  · intro c hc
+    unfold Cont.reset
+    cases hh : c.history with
+    | none => exact hc
+    | some h =>
+      simp only [appendNullaryRepeating_eq, Cont.total]
+      have hl : ((c.elems.zip (incrementingIndexes (w h).length (elements c.shape))).map
+          fun p => (p.1.1, p.2)).length = c.elems.length := by
+        simp [List.length_zip, incrementingIndexes_length, hc.length_eq]
+      refine ⟨by rw [hl]; exact hc.length_eq, ?_, by simp⟩
+      intro hnil
+      have h0 : c.elems.length = 0 := by rw [← hl]; simp only at hnil; rw [hnil]; rfl
+      exact hc.nonempty (List.eq_nil_of_length_eq_zero h0)
+  · intro op c hc
+    rw [unaryAssign_eq c _ _ w hc.const_zero]
+    have hw := unary_wf c op.fns.1 op.fns.2 w hc
+    have hs := unary_shape c op.fns.1 op.fns.2 w
+    exact ⟨by simpa [hs.1] using hw.length_eq, hw.nonempty, hw.const_zero⟩
+  · intro op a b c' w' ha hb hok
+    have key : ∀ (x : Cont R) (r : Cont R × World R), x.shape = a.shape →
+        a.binary b op.fns.1 op.fns.2.1 op.fns.2.2 w = .ok r →
+        ({ x with elems := r.1.elems, history := r.1.history } : Cont R).WF := by
+      intro x r hx hr
+      obtain ⟨r1, r2⟩ := r
+      have sp := binary_ok_spec a b _ _ _ w ha hb r1 r2 hr
+      exact ⟨by simpa [hx, sp.2.2.1] using sp.1.length_eq, sp.1.nonempty, sp.1.const_zero⟩
+    rcases hok with hok | hok
+    · rw [binaryLeftAssign_eq] at hok
+      cases hr : a.binary b op.fns.1 op.fns.2.1 op.fns.2.2 w with
+      | panic k => simp [hr, Outcome.map] at hok
+      | ok r =>
+        simp only [hr, Outcome.map] at hok
+        injection hok with hok; injection hok with h1 _; subst h1
+        exact key a r rfl hr
+    · rw [binaryRightAssign_eq] at hok
+      cases hr : a.binary b op.fns.1 op.fns.2.1 op.fns.2.2 w with
+      | panic k => simp [hr, Outcome.map] at hok
+      | ok r =>
+        simp only [hr, Outcome.map] at hok
+        injection hok with hok; injection hok with h1 _; subst h1
+        have hs : b.shape = a.shape := by
+          by_contra hne
+          have := binary_shape_mismatch a b op.fns.1 op.fns.2.1 op.fns.2.2 w (fun e => hne e.symm)
+          rw [this] at hr; cases hr
+        exact key b r hs hr
+
+/-- … and `from_iter` (hence `map`) builds a well-formed container from records that are
+    themselves well formed (a record without a tape has index 0, as `Record::constant` and every
+    scalar operator produce). -/
+theorem container_wf_from_iter (shape : Shape String) (recs : List (Rec R)) (c : Cont R)
+    (hgood : ∀ r ∈ recs, r.history = none → r.index = 0) :
+    (Cont.fromIterTensor shape recs = .ok c → c.WF)
+      ∧ (∀ rn cn r k, Cont.fromIterMatrix rn cn r k recs = .ok c → c.WF) := by
+  have wf_of : c.toRecs = recs → recs ≠ [] → c.elems.length = elements c.shape → c.WF := by
+    intro htr hne hlen
+    refine ⟨hlen, ?_, ?_⟩
+    · intro hnil
+      apply hne
+      rw [← htr, Cont.toRecs, hnil]; rfl
+    · intro hh e he
+      have hmem : (⟨e.1, c.history, e.2⟩ : Rec R) ∈ recs := by
+        rw [← htr, Cont.toRecs]
+        exact List.mem_map.mpr ⟨e, he, rfl⟩
+      exact hgood _ hmem hh
+  constructor
+  · intro h
+    have hr := (from_iter_records shape recs c).1 h
+    refine wf_of hr.1 hr.2.2 ?_
+    simp only [Cont.fromIterTensor] at h
+    cases hcc : Cont.collectComponents recs with
+    | error e => simp [hcc] at h
+    | ok p =>
+      obtain ⟨hist, numbers⟩ := p
+      simp only [hcc] at h
+      cases hv : validateDimensions shape numbers.length with
+      | some e => simp [hv] at h
+      | none =>
+        simp only [hv] at h
+        injection h with h; subst h
+        simp only [validateDimensions] at hv
+        split at hv
+        · simp at hv
+        · rename_i hlen
+          simpa using hlen
+  · intro rn cn r k h
+    have hr := (from_iter_records shape recs c).2 rn cn r k h
+    refine wf_of hr.1 hr.2.2 ?_
+    simp only [Cont.fromIterMatrix] at h
+    cases hcc : Cont.collectComponents recs with
+    | error e => simp [hcc] at h
+    | ok p =>
+      obtain ⟨hist, numbers⟩ := p
+      simp only [hcc] at h
+      split at h
+      · rename_i hfit
+        injection h with h; subst h
+        simp [elements_two, hfit.2]
+      · simp at h
+
+example : ∀ r ∈ [Rec.constant (1 : ℚ)], r.history = none → r.index = 0 := by simp [Rec.constant]
+
 /-- **Next unused positions** (C15): the result of an elementwise operation occupies a contiguous
     block that starts at the number of entries its tape had, one new entry per element; no other
     tape changes; a constant result changes no tape at all.  (`variables` and `reset`: through
